@@ -30,7 +30,9 @@ func (e *dataEnv) add(name string, v *spec.Value) {
 
 var interestingInts = []int64{0, 1, -1, 2, 3, 5, 7, 10, -7, 100, 255, 256, 1 << 31, -(1 << 31), math.MaxInt64, math.MinInt64, math.MaxInt64 - 1, 1 << 62}
 var interestingFloats = []float64{0, 0.5, 1.5, -1.5, 2.25, 0.1, 3.0, 7.5, 4.4, 1e10, -0.5, 100.25, 1e-3}
-var plainStrings = []string{"", "a", "b", "ab", "x y", "0", "é", "日本", "A1", "hello", "q'q", "it\"s"}
+
+// the last four hold character references: in a literal and in data they are ordinary characters
+var plainStrings = []string{"", "a", "b", "ab", "x y", "0", "é", "日本", "A1", "hello", "q'q", "it\"s", "&lt;", "&amp;", "a&#65;b", "&copy"}
 
 func genIntValue() *rapid.Generator[*spec.Value] {
 	return rapid.Custom(func(rt *rapid.T) *spec.Value {
